@@ -28,12 +28,28 @@ class LogDict(dict):
         self.log.append((self.current, k, v))
         super().__setitem__(k, v)
 
+    # a name is only ever learned, never forgotten: removals are recorded too
+    def __delitem__(self, k):
+        self.log.append((self.current, k, '<deleted>'))
+        super().__delitem__(k)
+
+    def pop(self, k, *d):
+        if k in self:
+            self.log.append((self.current, k, '<deleted>'))
+        return super().pop(k, *d)
+
+    def clear(self):
+        for k in list(self):
+            self.log.append((self.current, k, '<deleted>'))
+        super().clear()
+
 
 def wrap(orig, stats):
     def h(parser, events):
         window = list(events)
         try:
-            orig(parser, events)
+            t = orig(parser, events)
+            stats.setdefault('_texts', {})[id(window[-1])] = None if t is None else str(t)
         except Exception as ex:          # decoder trouble is C07's subject, not pairing's
             stats[type(ex).__name__] = stats.get(type(ex).__name__, 0) + 1
         return Rec(window)
@@ -52,20 +68,23 @@ def run_history(hist, codes, declared=False):
     for i, (tid, code, q, ws) in enumerate(hist):
         evs.append(Kevent(i, struct.pack('<QQQQ', *ws), tuple(ws), tid, code | q, code, q))
     ident = {id(e): i for i, e in enumerate(evs)}
-    outs = []
+    outs, texts = [], []
     for e in evs:
         names.current = e.tid
         r = parser.feed(e)
         if r is None:
             outs.append(None)
+            texts.append(None)
         else:
             outs.append([ident.get(id(x), -1) for x in r.ktraces])
+            texts.append(stats.get('_texts', {}).get(id(e)))
     learn = []
     for tid, pid, name in names.log:
         learn.append([tid, pid, name.encode('utf-8').hex() if isinstance(name, str) else repr(name)])
     open_events = sorted([t, c] for t, d in parser.on_going_events.items() for c in d)
     open_traces = sorted([t, c] for t, d in parser.on_going_traces.items() for c in d)
-    return {'outs': outs, 'learn': learn, 'decoder_errors': stats, 'open_events': open_events,
+    stats.pop('_texts', None)
+    return {'outs': outs, 'texts': texts, 'learn': learn, 'decoder_errors': stats, 'open_events': open_events,
             'open_traces': open_traces}
 
 
